@@ -101,9 +101,12 @@ type Result struct {
 	Samples      []any                      `json:"samples"`
 	Violations   []*Violation               `json:"violations"`
 	PerStratum   map[string]int             `json:"per_stratum"`
-	Done         bool                       `json:"done"`
-	CkptPos      int                        `json:"ckpt_pos"` // partial results: plan position not yet run
-	distinct     map[uint64]struct{}
+	// ByStratum: the same counters per stratum, so that the evidence shows for every stratum what its cases observed
+	// (a stratum whose cases are all dropped before the deciding comparison is visible as such)
+	ByStratum map[string]map[string]int64 `json:"by_stratum"`
+	Done      bool                        `json:"done"`
+	CkptPos   int                         `json:"ckpt_pos"` // partial results: plan position not yet run
+	distinct  map[uint64]struct{}
 }
 
 func NewResult() *Result {
@@ -113,6 +116,7 @@ func NewResult() *Result {
 		Inconclusive: map[string]int{},
 		InconSamples: map[string][]string{},
 		PerStratum:   map[string]int{},
+		ByStratum:    map[string]map[string]int64{},
 		distinct:     map[uint64]struct{}{},
 	}
 }
@@ -128,6 +132,17 @@ func (r *Result) Merge(o *Result) {
 	}
 	for k, v := range o.Counters {
 		r.Counters[k] += v
+	}
+	for st, m := range o.ByStratum {
+		if r.ByStratum == nil {
+			r.ByStratum = map[string]map[string]int64{}
+		}
+		if r.ByStratum[st] == nil {
+			r.ByStratum[st] = map[string]int64{}
+		}
+		for k, v := range m {
+			r.ByStratum[st][k] += v
+		}
 	}
 	for s, m := range o.Features {
 		if r.Features[s] == nil {
@@ -261,7 +276,20 @@ func (t *T) Distinct(key string) {
 	t.W.Res.distinct[h.Sum64()] = struct{}{}
 }
 
-func (t *T) Count(name string, n int) { t.W.Res.Counters[name] += int64(n) }
+func (t *T) Count(name string, n int) {
+	t.W.Res.Counters[name] += int64(n)
+	if t.Stratum != nil {
+		if t.W.Res.ByStratum == nil {
+			t.W.Res.ByStratum = map[string]map[string]int64{}
+		}
+		m := t.W.Res.ByStratum[t.Stratum.Name]
+		if m == nil {
+			m = map[string]int64{}
+			t.W.Res.ByStratum[t.Stratum.Name] = m
+		}
+		m[name] += int64(n)
+	}
+}
 
 func (t *T) Feature(set, item string) {
 	m := t.W.Res.Features[set]
